@@ -8,7 +8,7 @@ use refmodel::values::values;
 use refmodel::*;
 use serde_json::json;
 
-const N_CALLS: usize = 8;
+const N_CALLS: usize = 9;
 const CALL_NAMES: [&str; N_CALLS] = [
     "enc struct{N1 nested evolved, DeduplicatedString}",
     "dec of the same type",
@@ -18,6 +18,7 @@ const CALL_NAMES: [&str; N_CALLS] = [
     "enc (u8, String)",
     "dec Vec<DeduplicatedString> with back-references",
     "enc evolved history declaration",
+    "enc that FAILS in a later chunk (transient constructor) after chunk 0 was written",
 ];
 
 struct Subjects {
@@ -95,6 +96,10 @@ fn call(i: usize, u: &U, s: &Subjects) -> Vec<u8> {
         5 => enc("(u8, String)", &Val::Tuple(vec![Val::U(7), Val::s("h")])),
         6 => dec("Vec<desert::DeduplicatedString>", &[6, 2, b'x', 2, b'y', 1]),
         7 => enc(&s.hist, &s.hist_val),
+        8 => {
+            let (ty, v) = failing_subject();
+            render(bridge::dynrec::dyn_encode(&ty, &v))
+        }
         _ => unreachable!(),
     }
 }
@@ -111,7 +116,27 @@ fn expected(u: &U, s: &Subjects) -> Vec<Vec<u8>> {
         m("(u8, String)", &Val::Tuple(vec![Val::U(7), Val::s("h")])),
         format!("{:?}", Val::Seq(vec![Val::s("x"), Val::s("y"), Val::s("x")])).into_bytes(),
         m(&s.hist, &s.hist_val),
+        format!("ERR {:?}", bridge::ErrKind::SerializingTransientConstructor { constructor_name: "Temp".into(), type_name: "Att".into() }).into_bytes(),
     ]
+}
+
+/// an evolved record whose added (chunk 1) field is a transient constructor: the encode fails
+/// after the chunk-0 field has already been written into its buffer
+fn failing_subject() -> (Ty, Val) {
+    use std::sync::Arc;
+    let fld = |name: &str, ty: Ty| FieldDescr { name: name.into(), is_option: false, ty, transient: None, default: None };
+    let att = Ty::Enum(Arc::new(EnumDescr {
+        name: "Att".into(),
+        sorted: false,
+        variants: vec![
+            VariantDescr { name: "Plain".into(), transient: false, shape: 1, record: RecordDescr { name: "Plain".into(), steps: vec![], fields: vec![fld("field0", Ty::U8)] } },
+            VariantDescr { name: "Temp".into(), transient: true, shape: 0, record: RecordDescr { name: "Temp".into(), steps: vec![], fields: vec![] } },
+        ],
+    }));
+    let mut a = fld("att", att);
+    a.default = Some(Val::Enum(0, vec![Val::U(0)]));
+    let env = Ty::Record(Arc::new(RecordDescr { name: "Envelope".into(), steps: vec![Step::Added("att".into())], fields: vec![fld("id", Ty::U32), a] }));
+    (env, Val::Rec(vec![Val::U(0xdead_beef), Val::Enum(1, vec![])]))
 }
 
 /// child: run the given sequence of calls in this fresh process, print one hex line per call
@@ -295,7 +320,7 @@ pub fn run(tier: &str, only: Option<String>) -> i32 {
         }
     }
     run.stats.add("call_sequences_in_fresh_processes", seqs.len() as u64);
-    run.rule = format!("(a) every interleaving (shuttle DFS, no preemption bound) of 2{} threads each doing one of 7 calls, under three hook filters (string/ref tables; record open/finish and context creation; field writes/reads), metadata statics initialised under contention in every schedule; (b) all {} sequences of depth <= {} over 8 calls, each in a fresh process; (c) every value of the universe encoded twice from the same instance. Oracle: every call returns what it returns alone and what the reference model prescribes. Non-trivial = schedules with >= 2 threads, sequences with >= 2 calls.", if thorough { " and 3" } else { "" }, seqs.len(), depth);
+    run.rule = format!("(a) every interleaving (shuttle DFS, no preemption bound) of 2{} threads each doing one of 7 calls, under three hook filters (string/ref tables; record open/finish and context creation; field writes/reads), metadata statics initialised under contention in every schedule; (b) all {} sequences of depth <= {} over 9 calls (one of which fails half-way through a record), each in a fresh process; (c) every value of the universe encoded twice from the same instance. Oracle: every call returns what it returns alone and what the reference model prescribes. Non-trivial = schedules with >= 2 threads, sequences with >= 2 calls.", if thorough { " and 3" } else { "" }, seqs.len(), depth);
     run.bounds = json!({"threads": if thorough { 3 } else { 2 }, "sequence_depth": depth});
     run.assumptions = vec![
         "interleavings are at the granularity of scheduling points: shuttle lazy_static accesses of derived metadata, desert_verif hook points, spawn/join".into(),
